@@ -27,19 +27,11 @@ pub struct CompressionSettings { pub encoding: CompressionEncoding, pub buffer_g
 pub struct BufferSettings { pub buffer_size: usize, pub yield_threshold: usize }
 pub struct IoError { pub k: u8 }
 
-// A-compress-01: compress()/decompress() are functions of (encoding, input bytes); decompress inverts compress.
-// (flate2 / zstd are FFI, outside both verifiers.)
-pub uninterp spec fn compress_spec(e: CompressionEncoding, s: Seq<u8>) -> Seq<u8>;
-// compress() may fail (io error); whether it does is a function of its input (A-compress-04)
-pub uninterp spec fn compress_ok(e: CompressionEncoding, s: Seq<u8>) -> bool;
-pub uninterp spec fn decompress_spec(e: CompressionEncoding, s: Seq<u8>) -> Option<Seq<u8>>;
-pub broadcast axiom fn axiom_decompress_compress(e: CompressionEncoding, s: Seq<u8>)
-    ensures #[trigger] decompress_spec(e, compress_spec(e, s)) == Some(s);
-
-// A-compress-02: contract of tonic::codec::compression::decompress (body uses flate2/zstd readers)
+// A-compress-02: contract of tonic::codec::compression::decompress, PROVED on the real body in unit `compression` (same clauses)
 #[verifier::external_body]
 pub fn decompress(settings: CompressionSettings, compressed_buf: &mut BytesMut, out_buf: &mut BytesMut, len: usize) -> (r: Result<(), IoError>)
-    requires len <= old(compressed_buf)@.len()
+    requires len <= old(compressed_buf)@.len(), settings.buffer_growth_interval > 0, len <= usize::MAX / 4,
+        2 * len as int + settings.buffer_growth_interval as int <= usize::MAX as int
     ensures
         final(compressed_buf).reserve_bound == old(compressed_buf).reserve_bound,
         final(out_buf).reserve_bound == old(out_buf).reserve_bound,
@@ -48,10 +40,11 @@ pub fn decompress(settings: CompressionSettings, compressed_buf: &mut BytesMut, 
             && final(compressed_buf)@ == old(compressed_buf)@.skip(len as int),
         r is Err ==> decompress_spec(settings.encoding, old(compressed_buf)@.take(len as int)) is None,
 { unimplemented!() }
-// A-compress-03: contract of tonic::codec::compression::compress: appends compress_spec(first len bytes) to out_buf or fails having only appended
+// A-compress-03: contract of tonic::codec::compression::compress, PROVED on the real body in unit `compression` (same clauses)
 #[verifier::external_body]
 pub fn compress(settings: CompressionSettings, decompressed_buf: &mut BytesMut, out_buf: &mut BytesMut, len: usize) -> (r: Result<(), IoError>)
-    requires len <= old(decompressed_buf)@.len()
+    requires len <= old(decompressed_buf)@.len(), settings.buffer_growth_interval > 0,
+        len as int + settings.buffer_growth_interval as int <= usize::MAX as int
     ensures
         r is Ok <==> compress_ok(settings.encoding, old(decompressed_buf)@.take(len as int)),
         r is Ok ==> final(out_buf)@ == old(out_buf)@ + compress_spec(settings.encoding, old(decompressed_buf)@.take(len as int)),
@@ -59,4 +52,6 @@ pub fn compress(settings: CompressionSettings, decompressed_buf: &mut BytesMut, 
         final(out_buf).reserve_bound == old(out_buf).reserve_bound,
 { unimplemented!() }
 
+// sane buffer settings: a non-zero growth interval that cannot overflow address arithmetic (A-codec-05, assumed of the codec)
+pub open spec fn sane(b: BufferSettings) -> bool { 0 < b.buffer_size && b.buffer_size <= 0x4000_0000_0000_0000 }
 pub open spec fn flag_of(c: Option<CompressionEncoding>) -> u8 { if c is Some { 1u8 } else { 0u8 } }
